@@ -36,7 +36,11 @@ struct PrimRun {
         case 1: v = mod; break; case 2: v = Bn::sub(mod, Bn(1)); break; case 3: v = Bn::add(mod, Bn(1)); break;
         case 4: v = Bn(0); break; case 5: v = Bn(1); break; case 6: v = full; break;
         case 7: { Bn top = Bn::sub(mod, Bn::mod(mod, Bn(1).shl(bits - 64))); v = Bn::add(top, Bn::mod(v, Bn(1).shl(bits - 64))); break; }   // top word of the modulus, random lower words
-        case 8: { for (size_t i = 0; i < h.size(); i += 8) if (h[i] & 1) memset(&h[i], 0xFF, 8); else memset(&h[i], 0, 8); v = Bn::from_le(h.data(), h.size()); break; }   // all-ones / zero words
+        case 8: {   // extreme words: each 64-bit word (or, h[1] odd, each 32-bit word) is 0, all ones, 0x7ff..f, 0x800..0 or 1 - cross products and their doubled sums
+                    // then land on all-ones / exact-wrap double words, where a carry test written against the wrong operand goes wrong
+            size_t W = (h[1] & 1) ? 4 : 8; uint8_t sel[12]; for (size_t i = 0; i < 12; i++) sel[i] = h[2 + i];
+            for (size_t i = 0, wi = 0; i + W <= h.size(); i += W, wi++) { int pat = sel[wi % 12] % 5; memset(&h[i], pat == 1 || pat == 2 ? 0xFF : 0, W); if (pat == 2) h[i + W - 1] = 0x7F; else if (pat == 3) h[i + W - 1] = 0x80; else if (pat == 4) h[i] = 1; }
+            v = Bn::from_le(h.data(), h.size()); break; }
         case 9: { std::vector<uint8_t> z(h.size(), 0); for (size_t i = 0; i < h.size(); i += 8) z[i + (h[i] & 7)] = (uint8_t) (1u << (h[i + 1] & 7)); v = Bn::from_le(z.data(), z.size()); break; }   // single-bit words
         case 10: v = Bn::from_le(h.data(), h.size()).shr1(); break;
         case 11: { for (size_t i = 0; i < h.size(); i += 4) if (h[i] & 1) memset(&h[i], 0xFF, 4); v = Bn::from_le(h.data(), h.size()); break; }   // 32-bit word boundary patterns
